@@ -102,9 +102,17 @@ theorem c07_unblocked_only_if_gate_satisfied (cfg : Cfg) (H : Hashes) (s : State
     unfold consultOut at hr
     cases zr with
     | exc => simp [errorResult] at hr; subst hr; simp at hb
+
+    | excU => simp at hr
+
+    | excB => simp at hr
     | ret z =>
       cases yr with
       | exc => simp [errorResult] at hr; subst hr; simp at hb
+
+      | excU => simp at hr
+
+      | excB => simp at hr
       | ret y =>
         cases hp : p.enc <;> simp [hp] at hr
         subst hr
@@ -115,26 +123,27 @@ theorem c07_unblocked_only_if_gate_satisfied (cfg : Cfg) (H : Hashes) (s : State
   · rw [h] at hr; simp at hr; subst hr; simp at hc
   · rw [h] at hr; simp at hr
 
-/-- Any agent exception yields a blocked reply (unless an earlier reply for the same prompt is served from the
-    cache, in which case no agent is asked at all): the reply, if not cached, is blocked, unsuccessful and
-    carries no token. -/
+/-- Any agent exception — of whatever kind: an ordinary `Exception`, one that cannot even be rendered as text, a
+    `BaseException` — yields a blocked reply or no reply at all (unless an earlier reply for the same prompt is
+    served from the cache, in which case no agent is asked): a reply that comes back and is not cached is blocked,
+    unsuccessful and carries no token. -/
 theorem c07_exception_blocks (cfg : Cfg) (H : Hashes) (s : State) (p : Prompt) (zr yr : Resp)
-    (hexc : zr = .exc ∨ yr = .exc) (r : Result) (hr : (run cfg H s p zr yr).2.result = some r)
+    (hexc : (∀ z, zr ≠ .ret z) ∨ (∀ y, yr ≠ .ret y)) (r : Result) (hr : (run cfg H s p zr yr).2.result = some r)
     (hc : r.cached = false) : r.blocked = true ∧ r.success = false ∧ r.token = none := by
   rcases run_out cfg H s p zr yr with h | h | ⟨_, e, _, _, h⟩ | ⟨_, h⟩
   · rw [h] at hr; simp [circuitOpenResult] at hr; subst hr; simp
   · rw [h] at hr
     unfold consultOut at hr
-    rcases hexc with rfl | rfl
-    · simp [errorResult] at hr; subst hr; simp
-    · cases zr <;> simp [errorResult] at hr <;> subst hr <;> simp
+    cases zr <;> cases yr <;> simp [errorResult] at hr hexc <;> (try subst hr) <;> simp
   · rw [h] at hr; simp at hr; subst hr; simp at hc
   · rw [h] at hr; simp at hr
 
-/-- Every encodable prompt gets a reply; a prompt that cannot be encoded (lone surrogate: `run` raises
-    UnicodeEncodeError) never gets a reply that is not blocked. -/
+/-- Every request with an encodable prompt whose agents answer or raise an `Exception` that can be rendered gets
+    a reply; a prompt that cannot be encoded (lone surrogate: `run` raises UnicodeEncodeError) never gets a reply
+    that is not blocked. -/
 theorem c07_reply_or_nothing_passes (cfg : Cfg) (H : Hashes) (s : State) (p : Prompt) (zr yr : Resp) :
-    (p.enc = true → (run cfg H s p zr yr).2.result.isSome = true) ∧
+    (p.enc = true → zr ≠ .excU → zr ≠ .excB → yr ≠ .excU → yr ≠ .excB →
+      (run cfg H s p zr yr).2.result.isSome = true) ∧
     (p.enc = false → ∀ r, (run cfg H s p zr yr).2.result = some r → r.blocked = true ∧ r.token = none) := by
   rcases run_out cfg H s p zr yr with h | h | ⟨hp, e, _, _, h⟩ | ⟨hp, h⟩
   · rw [h]; simp [circuitOpenResult]
@@ -144,6 +153,35 @@ theorem c07_reply_or_nothing_passes (cfg : Cfg) (H : Hashes) (s : State) (p : Pr
     cases hp : p.enc <;> simp
   · rw [h]; simp [hp]
   · rw [h]; simp [hp]
+
+/-- OPEN FINDING C07-unprintable-agent-exception, the part that holds: an agent exception that can be rendered as
+    text is answered — unless the breaker or the cache answers first — with the blocked ERROR reply, whatever the
+    other agent would have said; and whatever an agent raises, a reply that is not blocked is never produced
+    (`c07_exception_blocks`). -/
+theorem c07_exception_yields_blocked_partial (cfg : Cfg) (H : Hashes) (s : State) (p : Prompt) (zr yr : Resp)
+    (hexc : zr = .exc ∨ ((∃ z, zr = .ret z) ∧ yr = .exc))
+    (hk : (run cfg H s p zr yr).2.kind ≠ .circuitOpen) (hh : (run cfg H s p zr yr).2.kind ≠ .cacheHit)
+    (hp : p.enc = true) :
+    (run cfg H s p zr yr).2 = ⟨.agentExc, some errorResult⟩ := by
+  rcases run_out cfg H s p zr yr with h | h | ⟨_, e, _, _, h⟩ | ⟨hp', h⟩
+  · rw [h] at hk; simp at hk
+  · rw [h]
+    unfold consultOut
+    rcases hexc with rfl | ⟨⟨z, rfl⟩, rfl⟩ <;> rfl
+  · rw [h] at hh; simp at hh
+  · rw [hp] at hp'; cases hp'
+
+-- FULL (false on the current tree): every agent exception yields a blocked REPLY:
+--   (∀ z, zr ≠ .ret z) → p.enc = true → ∃ r, (run cfg H s p zr yr).2.result = some r ∧ r.blocked = true
+/-- OPEN FINDING C07-unprintable-agent-exception, the witness: the executor raises an `Exception` whose `__str__`
+    raises.  The handler of `run` records the failure and then fails itself while formatting the block reason, so
+    `run` raises instead of answering with a blocked reply (nothing passes — but nothing comes back either, and
+    the same happens for a `BaseException`, which the handler does not catch at all). -/
+theorem c07_unprintable_exception_escapes_witness :
+    (run {} idHashes init ⟨1, true⟩ .excU (.ret .permit)).2 = ⟨.agentExc, none⟩ ∧
+    (run {} idHashes init ⟨1, true⟩ (.ret .execute) .excU).2 = ⟨.agentExc, none⟩ ∧
+    (run {} idHashes init ⟨1, true⟩ .excB (.ret .permit)).2 = ⟨.aborted, none⟩ ∧
+    (run {} idHashes init ⟨1, true⟩ .exc (.ret .permit)).2 = ⟨.agentExc, some errorResult⟩ := by decide
 
 /-- An approval token is attached only when the assessor permitted: a non-cached reply carries a token exactly
     when both agents answered, the assessor's verdict is PERMIT and the request is not blocked; the token is
@@ -158,9 +196,17 @@ theorem c07_token_iff_assessor_permits_and_unblocked (cfg : Cfg) (H : Hashes) (s
     unfold consultOut at hr
     cases zr with
     | exc => simp [errorResult] at hr; subst hr; simp
+
+    | excU => simp at hr
+
+    | excB => simp at hr
     | ret z =>
       cases yr with
       | exc => simp [errorResult] at hr; subst hr; simp
+
+      | excU => simp at hr
+
+      | excB => simp at hr
       | ret y =>
         cases hp : p.enc <;> simp [hp] at hr
         subst hr
@@ -211,9 +257,17 @@ theorem c07_history_sound (cfg : Cfg) (H : Hashes) (ops : List Op) :
         unfold consultOut at hr
         cases zr with
         | exc => simp [errorResult] at hr; subst hr; simp at hb
+
+        | excU => simp at hr
+
+        | excB => simp at hr
         | ret z =>
           cases yr with
           | exc => simp [errorResult] at hr; subst hr; simp at hb
+
+          | excU => simp at hr
+
+          | excB => simp at hr
           | ret y =>
             cases hp : p.enc <;> simp [hp] at hr
             subst hr
@@ -257,9 +311,17 @@ theorem c07_token_binds_request (cfg : Cfg) (H : Hashes) (hinj : ∀ a b, H.md5 
         unfold consultOut at hr
         cases zr with
         | exc => simp [errorResult] at hr; subst hr; simp at ht
+
+        | excU => simp at hr
+
+        | excB => simp at hr
         | ret z =>
           cases yr with
           | exc => simp [errorResult] at hr; subst hr; simp at ht
+
+          | excU => simp at hr
+
+          | excB => simp at hr
           | ret y =>
             cases hp : p.enc <;> simp [hp] at hr
             subst hr
@@ -391,7 +453,7 @@ theorem c07_overlap_unblocked_only_if_own_verdicts (cfg : Cfg) (H : Hashes) (ops
     intro k r hout hc hb
     rcases phaseStep_out cfg H s op _ hout with h | h | h | ⟨p, z, y, hop, _, h⟩ | ⟨p, _, e, _, _, h⟩
     · cases h; simp [circuitOpenResult] at hb
-    · cases h
+    · simp at h
     · cases h; simp [errorResult] at hb
     · simp only [Out.mk.injEq, Option.some.injEq] at h
       obtain ⟨_, hr⟩ := h
@@ -441,7 +503,7 @@ theorem c07_overlap_history_sound (cfg : Cfg) (H : Hashes) (ops : List PhaseOp) 
     intro k r hout hb
     rcases phaseStep_out cfg H s op _ hout with h | h | h | ⟨p, z, y, _, _, h⟩ | ⟨p, _, e, he, _, h⟩
     · cases h; simp [circuitOpenResult] at hb
-    · cases h
+    · simp at h
     · cases h; simp [errorResult] at hb
     · simp only [Out.mk.injEq, Option.some.injEq] at h
       obtain ⟨_, hr⟩ := h
@@ -480,7 +542,7 @@ theorem c07_overlap_token_binds_request (cfg : Cfg) (H : Hashes) (hinj : ∀ a b
     intro p k r t hop hout ht
     rcases phaseStep_out cfg H s op _ hout with h | h | h | ⟨p', z, y, hop', _, h⟩ | ⟨p', hop', e, he, hk, h⟩
     · cases h; simp [circuitOpenResult] at ht
-    · cases h
+    · simp at h
     · cases h; simp [errorResult] at ht
     · simp only [Out.mk.injEq, Option.some.injEq] at h
       obtain ⟨_, hr⟩ := h
@@ -529,7 +591,7 @@ theorem c07_overlap_cached_verdict_identical (cfg : Cfg) (H : Hashes) (ops : Lis
       intro k r hout hc
       rcases phaseStep_out cfg H s op _ hout with h | h | h | ⟨p, z, y, _, _, h⟩ | ⟨p, _, e, _, _, h⟩
       · cases h; simp [circuitOpenResult] at hc
-      · cases h
+      · simp at h
       · cases h; simp [errorResult] at hc
       · simp only [Out.mk.injEq, Option.some.injEq] at h
         obtain ⟨_, hr⟩ := h
@@ -695,6 +757,66 @@ theorem c07_token_bound_to_original_prompt (cfg : Cfg) (H : Hashes) (ops : List 
   rw [hty.1] at hh
   exact hsha _ _ hh
 
+/-! ### callbacks: the tail of `run` -/
+
+/-- What the caller of `run` — or, when it raises, the callback — gets to see is exactly the result the request
+    produced (`Out.result`): every statement above about `result` is a statement about what is delivered. -/
+theorem c07_delivery_is_the_result (hk : Hooks) (t : Tally) (o : Out) (h : o.kind ≠ .admin) :
+    (deliver hk t o).2.seen = o.result := by
+  obtain ⟨k, r⟩ := o
+  obtain ⟨hb, hp⟩ := hk
+  cases k <;> cases r <;> simp [deliver, Delivery.seen] at h ⊢
+  rename_i ev r
+  cases hbl : r.blocked <;> cases hb <;> cases hp <;> simp
+
+/-- The `on_permit` callback — the other way the guard announces that a request passes — is invoked only for a
+    request that was decided just now (never for a cache hit, a CIRCUIT_OPEN reply or an agent exception) by
+    verdicts of both agents that satisfy the configured gate logic; `on_block` is invoked only with a blocked
+    result. -/
+theorem c07_callbacks_only_for_decided_requests (hk : Hooks) (t : Tally) (cfg : Cfg) (H : Hashes) (s : State)
+    (p : Prompt) (zr yr : Resp) :
+    ((deliver hk t (run cfg H s p zr yr).2).1.permitHookCalls ≠ t.permitHookCalls →
+      ∃ z y, zr = .ret z ∧ yr = .ret y ∧ criterion cfg.gate z y = true ∧
+        (run cfg H s p zr yr).2.result = some (gateResult H cfg.gate p z y) ∧
+        (gateResult H cfg.gate p z y).blocked = false) ∧
+    ((deliver hk t (run cfg H s p zr yr).2).1.blockHookCalls ≠ t.blockHookCalls →
+      ∃ z y, zr = .ret z ∧ yr = .ret y ∧
+        (run cfg H s p zr yr).2.result = some (gateResult H cfg.gate p z y) ∧
+        (gateResult H cfg.gate p z y).blocked = true) := by
+  have key : ∀ o : Out,
+      (((deliver hk t o).1.permitHookCalls ≠ t.permitHookCalls ∨ (deliver hk t o).1.blockHookCalls ≠ t.blockHookCalls) →
+        ∃ ev r, o = ⟨.gated ev, some r⟩ ∧
+          ((deliver hk t o).1.permitHookCalls ≠ t.permitHookCalls → r.blocked = false) ∧
+          ((deliver hk t o).1.blockHookCalls ≠ t.blockHookCalls → r.blocked = true)) := by
+    intro o hne
+    obtain ⟨k, r⟩ := o
+    obtain ⟨hb, hp⟩ := hk
+    cases k <;> cases r <;> simp [deliver, logOne] at hne ⊢
+    rename_i ev r
+    cases hbl : r.blocked <;> cases hb <;> cases hp <;> simp [hbl] at hne ⊢ <;> exact ⟨ev, r, ⟨rfl, rfl⟩, hbl⟩
+  have gated : ∀ ev r, (run cfg H s p zr yr).2 = ⟨.gated ev, some r⟩ →
+      ∃ z y, zr = .ret z ∧ yr = .ret y ∧ r = gateResult H cfg.gate p z y := by
+    intro ev r h
+    have hmem : (⟨.run p zr yr, (run cfg H s p zr yr).2⟩ : Obs) ∈ (exec cfg H s [.run p zr yr]).2 := by simp [exec, step]
+    obtain ⟨p', z, y, hop, hr⟩ := (exec_gated cfg H [.run p zr yr] s _ hmem).1 ev r h
+    simp only [Op.run.injEq] at hop
+    obtain ⟨rfl, rfl, rfl⟩ := hop
+    exact ⟨z, y, rfl, rfl, hr⟩
+  constructor
+  · intro hne
+    obtain ⟨ev, r, ho, hp, _⟩ := key _ (Or.inl hne)
+    obtain ⟨z, y, hz, hy, hr⟩ := gated ev r ho
+    have hb : r.blocked = false := hp hne
+    subst hr
+    have hb' : (applyGate cfg.gate z y).blocked = false := by simpa [gateResult] using hb
+    exact ⟨z, y, hz, hy, (c07_gate_sound cfg.gate z y).mp hb', by rw [ho], hb⟩
+  · intro hne
+    obtain ⟨ev, r, ho, _, hq⟩ := key _ (Or.inr hne)
+    obtain ⟨z, y, hz, hy, hr⟩ := gated ev r ho
+    have hb : r.blocked = true := hq hne
+    subst hr
+    exact ⟨z, y, hz, hy, by rw [ho], hb⟩
+
 /-! ### Non-vacuity: concrete requests and histories meeting the hypotheses -/
 
 private def pr (n : Nat) : Prompt := ⟨n, true⟩
@@ -740,5 +862,12 @@ example : ((execR idHashes { gate := .or } init
        .op (.run (pr 1) .exc .exc), .assign { gate := .and, ttl := 5 }, .op (.run (pr 2) (.ret .execute) (.ret .block))]).2.map
       fun o => o.out.result.map fun r => (r.blocked, r.cached)) =
     [some (false, false), some (false, true), some (true, false)] := by decide
+
+/-- a raising `on_permit` callback: the SUCCESS result is produced, counted, handed to the callback — and the
+    caller gets the callback's exception (hypothesis of `c07_callbacks_only_for_decided_requests` holds) -/
+example :
+    deliver { onPermit := .raises } {} (run {} idHashes init (pr 1) (.ret .execute) (.ret .permit)).2 =
+      ({ requests := 1, permitted := 1, logged := 1, permitHookCalls := 1 },
+       .hookRaised (gateResult idHashes .and (pr 1) .execute .permit)) := by decide
 
 end Operon.Cffl
